@@ -10,7 +10,7 @@ import cli
 from impl import trees, treeoutput, treeinput, quiet, clone
 
 ID = "C17"
-MODULE = ['TT.Props.C17', 'TT.Props.C17More', 'TT.Props.C17Run', 'TT.Props.C17More2', 'TT.Props.C17More3', 'TT.Props.C17More4', 'TT.Props.C03Cmd']
+MODULE = ['TT.Props.C17', 'TT.Props.C17More', 'TT.Props.C17Run', 'TT.Props.C17More2', 'TT.Props.C17More3', 'TT.Props.C17More4', 'TT.Props.C03Cmd', 'TT.Props.C17Xml']
 RULE = ("exhaustive specifications of up to 3 parts over {0#,1#,2#,5#,13#,0%,10%,29%,33%,50%,57%,100%,rest} x sizes "
         "0..12 and {100} (quick; more sizes thorough), a malformed stream, and `treetools transform --split` runs over "
         "all five output formats with and without filter_by_length. Non-trivial: more than one part")
